@@ -239,7 +239,9 @@ func (b *Billet) traverse(curr Node, path, from []byte, process func(pathToNode 
 		}
 		return b.traverse(r, path, from, process, ignoreStorageErr, backwards)
 	}
-	if len(from) == 0 {
+	// Going backwards, a leaf reached with a non-empty remainder of `from` holds a key
+	// that is a proper prefix of the start point, i.e. precedes it.
+	if _, isLeaf := curr.(*LeafNode); len(from) == 0 || (backwards && isLeaf) {
 		bytes := bytes.Clone(curr.Bytes())
 		if process(fromNibbles(path), curr, bytes) {
 			return curr, errStop
@@ -300,8 +302,8 @@ func (b *Billet) traverse(curr Node, path, from []byte, process func(pathToNode 
 				n.Children[i] = r
 			}
 			// Process the last child after the rest of the children to match lexicographic keys comparison order,
-			// since the last child doesn't add suffix to the key.
-			r, err := b.traverse(n.Children[lastChild], path, from, process, ignoreStorageErr, backwards)
+			// since the last child doesn't add suffix to the key (and thus precedes any start point below this branch).
+			r, err := b.traverse(n.Children[lastChild], path, []byte{}, process, ignoreStorageErr, backwards)
 			if err != nil {
 				if !errors.Is(err, errStop) {
 					return nil, err
@@ -316,7 +318,8 @@ func (b *Billet) traverse(curr Node, path, from []byte, process func(pathToNode 
 	case *ExtensionNode:
 		if len(from) != 0 && bytes.HasPrefix(from, n.key) {
 			from = from[len(n.key):]
-		} else if len(from) == 0 || bytes.Compare(n.key, from) > 0 {
+		} else if len(from) == 0 || (!backwards && bytes.Compare(n.key, from) > 0) ||
+			(backwards && (bytes.Compare(n.key, from) < 0 || bytes.HasPrefix(n.key, from))) {
 			from = []byte{}
 		} else {
 			return b.tryCollapseExtension(n), nil
